@@ -1,0 +1,26 @@
+//go:build verif
+
+// Contracts for package vdr, checked by /verif/govc (comment-only; not part of any normal build).
+
+package vdr
+
+//@ func (*resolver.DIDResolverRouter).Register
+//@   trusted
+//@   benign
+
+//@ func didweb.NewResolver
+//@   trusted
+//@   benign
+//@   ensures result != nil
+//@ func didweb.NewManager
+//@   trusted
+//@   benign
+
+// ---- C18: did:web resolution is local-first: the resolver registered for did:web asks the node's own
+// database before the web, in that order ----
+//@ func (*Module).Configure
+//@   prop C18
+//@   call (*resolver.DIDResolverRouter).Register #* requires [did-web-is-resolved-local-first] arg(1) != didweb.MethodName
+//@        || (typeOf(arg(2)) == resolver.ChainedDIDResolver && len(arg(2).(resolver.ChainedDIDResolver).Resolvers) == 2
+//@            && arg(2).(resolver.ChainedDIDResolver).Resolvers[0] == resolver.DIDResolver(r.ownedDIDResolver)
+//@            && typeOf(arg(2).(resolver.ChainedDIDResolver).Resolvers[1]) == *didweb.Resolver)
